@@ -347,6 +347,10 @@ PROPS = {
     "C13": {
         "class_prefixes": ["c13-", "harness-crash"],
         "subs": [
+            {"name": "lifeq", "n_quick": 0, "n_thorough": 0, "oracle": False,
+             "rule": "the session variant of the queued-frames cases: a sender in snd-settle-mode settled sends 1..30 pre-settled messages and the application "
+                     "ends the session (end / end_with_error) without giving the engines a turn in between: every transfer the link had handed over is written "
+                     "before the end frame, nothing after it"},
             {"name": "lifem", "n_quick": 400, "n_thorough": 20000, "model": "coq/Session/SessLife.v",
              "rule": "session-only scripts over begin / peer begin / end / end_with_error / drop / cancelled end / peer end with and without error "
                      "(protocol-abiding peer): every legal script of length <= 5 (thorough <= 7) after begin, plus random ones of length 3..12"},
